@@ -28,6 +28,14 @@ func fuzzCase(payload []byte, form, at uint8, relaxed bool) (Case, bool) {
 	var blk []string
 	f := []string{"line", "next-line", "begin-end"}[int(form)%3]
 	pint := false
+	// NEL, LS and PS end a line for the YAML reader and for pint just like LF does: a payload line holding
+	// one is several lines.  Inside begin..end that only changes how many lines the block has; the per-line
+	// forms would leave the part after the break outside the exclusion.
+	pj := strings.Join(pl, "\n")
+	extra := strings.Count(pj, "\u0085") + strings.Count(pj, "\u2028") + strings.Count(pj, "\u2029")
+	if extra > 0 && f != "begin-end" {
+		return Case{}, false
+	}
 	for _, l := range pl {
 		if i := strings.Index(l, "#"); i >= 0 {
 			if f == "line" {
@@ -57,7 +65,7 @@ func fuzzCase(payload []byte, form, at uint8, relaxed bool) (Case, bool) {
 		all := append(append(append([]string{}, base[:pos]...), mid...), base[pos:]...)
 		return strings.Join(all, "\n") + "\n"
 	}
-	return Case{A: join(blk), B: join(make([]string, len(blk))), Relaxed: relaxed, Form: f, Rel: "insertion", Payload: "fuzz", Point: "fuzz", PintComment: pint}, true
+	return Case{A: join(blk), B: join(make([]string, len(blk)+extra)), Relaxed: relaxed, Form: f, Rel: "insertion", Payload: "fuzz", Point: "fuzz", PintComment: pint}, true
 }
 
 // FuzzMask: coverage-guided search over excluded payloads (thorough tier only).
